@@ -27,6 +27,7 @@ class Fn:
         external_body=False,
         attrs=(),
         loop_open=None,
+        at_end=None,
     ):
         self.file = file
         self.path = path if isinstance(path, list) else [p.strip() for p in path.split("::")]
@@ -50,6 +51,7 @@ class Fn:
         self.attrs = tuple(attrs)
         # ghost snapshots / assertions placed at the start of the body of loop #k
         self.loop_open = loop_open or {}
+        self.at_end = at_end
 
 
 class Type:
@@ -128,7 +130,7 @@ def emit(unit):
                 rw.desugar_let_chains()
                 if "R8" not in rw.rules:
                     raise ExtractError("%s: let_chains requested but none found" % label)
-            rw.splice_fn(it.ret, it.spec, it.loops, it.before, it.after_open, it.loop_open)
+            rw.splice_fn(it.ret, it.spec, it.loops, it.before, it.after_open, it.loop_open, it.at_end)
             if it.rename:
                 rw.subst("fn " + it.name, "fn " + it.rename, 1)
             for at in it.attrs:
